@@ -293,7 +293,11 @@ StepTick(K) ==
 \* `age <= Q(t)` / `age > Q(t)`, Q rounds down), and a comparison happens at least one tick after a may-block decision
 \* (the press is dequeued by a tick, after tick_hist), so ages at or above the maximum are indistinguishable.
 FutCapAges(h) == [i \in DOMAIN h |-> [h[i] EXCEPT !.age = Min(@, Opts.switch_max_key_timing)]]
-Fut(k) == [k EXCEPT !.out = <<>>, !.L.hk = FutCapAges(@), !.L.hi = FutCapAges(@)]
+\* A Tombstone (src: layout.rs:1486-1496, the slot of a macro custom action whose release was just emitted) is inert: no
+\* keycode, no coordinate, never matched by a release; the next process_sequence_custom drops it.  It only occupies one
+\* of the 64 state slots for a tick, which the bounded instances never fill.
+Fut(k) == [k EXCEPT !.out = <<>>, !.L.hk = FutCapAges(@), !.L.hi = FutCapAges(@),
+                    !.L.states = SelectSeq(@, LAMBDA s : s.t # "tomb")]
 \* a tick taken where the loop may block emits nothing and is a stutter on Fut; by induction over the gap length this
 \* is "K ticks are unobservable" for every K
 IdleTickIsStutter(k) ==
